@@ -275,6 +275,13 @@ impl MissingFieldLocationGuard {
         Self { prev }
     }
 
+    /// Hide the current fallback location for the lifetime of the guard (a new document scope
+    /// must not inherit the location of an enclosing, unrelated document).
+    pub(crate) fn cleared() -> Self {
+        let prev = MISSING_FIELD_FALLBACK.with(|c| c.replace(None));
+        Self { prev }
+    }
+
     /// Update the fallback location in place, reusing the existing guard's restore point.
     pub(crate) fn replace_location(&mut self, location: Location) {
         MISSING_FIELD_FALLBACK.with(|c| c.set(Some(location)));
